@@ -339,6 +339,11 @@ class Exec(HeapMixin, SpecEvalMixin, ExprMixin, StmtMixin, CallMixin):
                         conds.append(TRUE)
                 fin = self.oblige(fin, Or(*conds), "raises", f"raise-condition:{exc.cls}",
                                   meta={"exception": exc.cls, "origin": exc.origin})
+                gex = [cl for r in allowed for cl in getattr(c, "ghost_ensures_exc", {}).get(r.exc, [])]
+                if gex:
+                    fin = self.havoc_locations(fin, c.ghost_modifies, SpecEnv(entry, dict(params)))
+                    for gcl in gex:
+                        fin = fin.assume(self.spec_bool(SpecEnv(fin, names, entry, dict(params)), gcl.expr))
                 for r in allowed:
                     for cl in c.ensures_exc.get(r.exc, []):
                         g = self.spec_bool(SpecEnv(fin, names, entry, dict(params)), cl.expr)
